@@ -92,6 +92,10 @@ class Env:
         self._module = m
 
 
+class BudgetExceeded(Exception):
+    pass
+
+
 class ReturnSignal(Exception):
     def __init__(self, v):
         self.v = v
@@ -164,6 +168,9 @@ class Interp:
     def call_func(self, f: FuncRef, args, kwargs, node):
         if self.depth > self.max_depth:
             raise Unsupported(node, "depth")
+        if self.callstack.count(f.name) >= 2:
+            # recursive repo function (e.g. check_format_input_obj over nested collections): do not unroll
+            raise Unsupported(node, f"recursion into {f.name}")
         fn = f.node
         env = Env(f.closure)
         env.module = f.module
@@ -226,6 +233,9 @@ class Interp:
         return True
 
     def stmt(self, s, env, rets):
+        self.steps = getattr(self, "steps", 0) + 1
+        if self.steps > getattr(self, "max_steps", 400000):
+            raise BudgetExceeded(f"interpreter step budget exceeded in {self.callstack[-3:]}")
         if getattr(self, "tolerant", False):
             try:
                 return self._stmt(s, env, rets)
@@ -260,7 +270,10 @@ class Interp:
             rhs = self.expr(s.value, env)
             if isinstance(s.target, ast.Name):
                 cur = env.get(s.target.id)
-                env.set(s.target.id, d.binop(s.op, cur, rhs, s))
+                if hasattr(d, "aug_name"):
+                    env.set(s.target.id, d.aug_name(s.op, cur, rhs, s))
+                else:
+                    env.set(s.target.id, d.binop(s.op, cur, rhs, s))
             elif isinstance(s.target, ast.Subscript):
                 recv = self.expr(s.target.value, env)
                 idx = self.index_vals(s.target.slice, env)
